@@ -56,11 +56,36 @@ def reference_add_one(mode: str, qclass: Tuple[str, int], cmp2: int) -> int:
     raise KeyError(mode)
 
 
-def quotient_classes() -> List[Tuple[str, int]]:
-    out = [("<=-2", r) for r in range(10)]
-    out += [("-1", 9), ("0", 0), ("1", 1)]
-    out += [(">=2", r) for r in range(10)]
+def quotient_classes(modulus: int = 10) -> List[Tuple[str, int]]:
+    """Sign class x residue of the quotient; the residues are taken modulo `modulus` (a multiple of 10: the modes
+    look at parity and at the last digit; a helper that tests other residues needs a finer partition)."""
+    out = [("<=-2", r) for r in range(modulus)]
+    out += [("-1", modulus - 1), ("0", 0), ("1", 1)]
+    out += [(">=2", r) for r in range(modulus)]
     return out
+
+
+def residue_modulus(fi: FuncInfo, prog=None) -> int:
+    """lcm of 10 and every integer constant used as a modulus (or bit mask + 1) in the helper's module functions
+    it may call: the partition of the quotients the table is enumerated over."""
+    from math import gcd
+    L = 10
+    nodes = [fi.node]
+    mod = getattr(fi, "module", None)
+    if mod is not None:
+        nodes += [f.node for f in mod.functions.values() if f.node is not fi.node and hasattr(f.node, "body")]
+        nodes += [e for e in mod.globals.values()]
+    for root in nodes:
+        for n in ast.walk(root):
+            if isinstance(n, ast.BinOp) and isinstance(n.op, ast.Mod) and isinstance(n.right, ast.Constant) \
+                    and isinstance(n.right.value, int) and not isinstance(n.right.value, bool) and 0 < n.right.value <= 60:
+                m = n.right.value
+                L = L * m // gcd(L, m)
+            if isinstance(n, ast.Call) and isinstance(n.func, ast.Name) and n.func.id == "divmod" and len(n.args) == 2 \
+                    and isinstance(n.args[1], ast.Constant) and isinstance(n.args[1].value, int) and 0 < n.args[1].value <= 60:
+                m = n.args[1].value
+                L = L * m // gcd(L, m)
+    return L if L <= 420 else 10
 
 
 def rounding_modes_from_dependency() -> List[str]:
@@ -138,12 +163,13 @@ class Rz(Exception):
 
 class TableEval:
     def __init__(self, fi: FuncInfo, mode: Optional[str], default_mode: Optional[str],
-                 qclass: Tuple[str, int], cmp2: int, rem_zero=False, prog=None):
+                 qclass: Tuple[str, int], cmp2: int, rem_zero=False, prog=None, modulus: int = 10):
         self.prog = prog
         self.fi = fi
         self.mode = mode
         self.default_mode = default_mode
         self.qclass = qclass
+        self.modulus = modulus
         self.cmp2 = cmp2
         self.rem_zero = rem_zero
         self.env: Dict[str, object] = {}
@@ -293,7 +319,7 @@ class TableEval:
                     return base[key.name]
                 raise Rz("KeyError")
             self.bad(n, "subscript")
-        if isinstance(n, ast.Tuple):
+        if isinstance(n, (ast.Tuple, ast.List, ast.Set)):
             return tuple(self.ev(e) for e in n.elts)
         if isinstance(n, ast.Attribute):
             s = src_of(n)
@@ -482,7 +508,7 @@ class TableEval:
             return AQ(-r.c, -r.s)
         if isinstance(op, ast.Mod) and isinstance(l, AQ) and isinstance(r, Fraction) and r.denominator == 1:
             m = int(r)
-            if m > 0 and 10 % m == 0:
+            if m > 0 and self.modulus % m == 0:
                 return Fraction((l.s * self.qclass[1] + l.c) % m)
         # x // y and x % y of the two parameters are the quotient and the remainder divmod would give
         if l == "X" and isinstance(r, Lin) and (r.kr, r.ky) == (0, 1):
@@ -534,6 +560,9 @@ class TableEval:
 
     def cmp(self, op, l, r, node) -> bool:
         opn = type(op).__name__
+        if opn in ("In", "NotIn") and isinstance(r, tuple):
+            hit = any(self.cmp(ast.Eq(), l, x, node) for x in r)
+            return hit if opn == "In" else not hit
         if isinstance(l, FuncRef) or isinstance(r, FuncRef):
             same = (l is r) or (isinstance(l, FuncRef) and isinstance(r, FuncRef) and l.fi is r.fi)
             if opn in ("Eq", "Is"):
@@ -615,10 +644,11 @@ class TableEval:
 
 def decision_table(fi: FuncInfo, modes: List[str], prog=None):
     """Yield (mode, how, qclass, cmp2, outcome) for every cell."""
+    L = residue_modulus(fi, prog)
     for mode in modes:
         for how in ("explicit", "default"):
-            for qc in quotient_classes():
+            for qc in quotient_classes(L):
                 for cmp2 in (-1, 0, 1):
                     ev = TableEval(fi, mode if how == "explicit" else None,
-                                   mode if how == "default" else "ROUND_HALF_EVEN", qc, cmp2, prog=prog)
+                                   mode if how == "default" else "ROUND_HALF_EVEN", qc, cmp2, prog=prog, modulus=L)
                     yield mode, how, qc, cmp2, ev.run()
